@@ -75,21 +75,195 @@ def framing_ok(b, addpath):
     return None
 
 
+# ---------------------------------------------------------------- NLRI of the core families, by family (Wire/Families.v)
+FAMS = [(a, s) for a in (1, 2) for s in (1, 2, 4, 128, 129)]
+WITHDRAW = 0x800000
+
+
+def fam_kind(safi):
+    return "plain" if safi in (1, 2) else ("labelled" if safi == 4 else "vpn")
+
+
+def py_enc_nlri(safi, v):
+    """independent encoder (RFC 4271 4.3 / RFC 8277 2 / RFC 4364 4.3.4)"""
+    k = fam_kind(safi)
+    n = (v["bits"] + 7) // 8
+    out = b""
+    total = v["bits"]
+    if k != "plain":
+        if v["labels"] == [WITHDRAW]:
+            out += bytes([0x80, 0, 0])
+        else:
+            for i, l in enumerate(v["labels"]):
+                w = (l << 4) | (1 if i == len(v["labels"]) - 1 else 0)
+                out += bytes([(w >> 16) & 255, (w >> 8) & 255, w & 255])
+        total += 24 * len(v["labels"])
+    if k == "vpn":
+        out += v["rd"]
+        total += 64
+    return bytes([total & 255]) + out + v["addr"][:n]
+
+
+def gen_fnlri(rng):
+    afi, safi = rng.choice(FAMS)
+    alen = 4 if afi == 1 else 16
+    k = fam_kind(safi)
+    bits = rng.choice([0, 1, 7, 8, 9, 16, 17, 23, 24, 25, 31, 32] if afi == 1 else [0, 1, 8, 17, 32, 33, 48, 56, 63, 64, 65, 96, 120, 127, 128])
+    addr = bytearray(rng.getrandbits(8) for _ in range(alen))
+    hostbits = rng.random() < 0.12
+    if not hostbits:
+        for i in range(alen):
+            if i * 8 >= bits:
+                addr[i] = 0
+            elif (i + 1) * 8 > bits:
+                addr[i] &= (0xff00 >> (bits % 8)) & 255
+    v = {"afi": afi, "safi": safi, "bits": bits, "addr": bytes(addr), "labels": [], "rd": b"", "hostbits": hostbits and bytes(addr) != bytes(masked(addr, bits))}
+    if k != "plain":
+        r = rng.random()
+        if r < 0.12:
+            v["labels"] = [WITHDRAW]
+        else:
+            pool = [16, 17, 100, 1048575, 524289, 3, 1, 65536, 524287]
+            top = pool + ([0, 524288] if rng.random() < 0.15 else [])
+            n = rng.choice([1, 1, 1, 2, 2, 3])
+            v["labels"] = [rng.choice(top) for _ in range(n - 1)] + [rng.choice(pool + [0, 524288])]
+    if k == "vpn":
+        t = rng.choice([0, 0, 1, 2, 2, 3, 7, 256])
+        v["rd"] = bytes([t >> 8, t & 255]) + bytes(rng.getrandbits(8) for _ in range(6))
+    return v
+
+
+def masked(addr, bits):
+    a = bytearray(addr)
+    for i in range(len(a)):
+        if i * 8 >= bits:
+            a[i] = 0
+        elif (i + 1) * 8 > bits:
+            a[i] &= (0xff00 >> (bits % 8)) & 255
+    return a
+
+
+def canon_rd(rd):
+    """every RD type keeps its six value octets"""
+    return rd
+
+
+def fnlri_fits(v):
+    """representable at all: the length octet counts labels, RD and prefix bits"""
+    k = fam_kind(v["safi"])
+    return v["bits"] + (24 * len(v["labels"]) if k != "plain" else 0) + (64 if k == "vpn" else 0) <= 255
+
+
+AMBIGUOUS_LABEL = "mpls-label-above-the-bottom-reads-as-withdraw-label"
+
+
+def fnlri_ambiguous(v):
+    """a label word 0x000000 or 0x800000 above the bottom of the stack reads as the withdraw label"""
+    return len(v["labels"]) > 1 and any(l in (0, 524288) for l in v["labels"][:-1])
+
+
+def mutate(rng, b):
+    b = bytearray(b)
+    r = rng.random()
+    if r < 0.3 and b:
+        b[rng.randrange(len(b))] = rng.getrandbits(8)
+    elif r < 0.5 and b:
+        b[0] = rng.choice([0, 8, 24, 25, 32, 33, 48, 64, 88, 96, 112, 120, 128, 129, 152, 200, 216, 217, 255])
+    elif r < 0.65:
+        b = b[:rng.randrange(len(b) + 1)]
+    elif r < 0.8:
+        b += bytes(rng.getrandbits(8) for _ in range(rng.choice([1, 2, 3, 8, 20])))
+    else:
+        i = rng.randrange(len(b) + 1)
+        b[i:i] = rng.choice([bytes([0x80, 0, 0]), bytes([0, 0, 0]), bytes([0, 1, 1]), bytes([0, 1, 0])])
+    return bytes(b)
+
+
+def fnlri_cases(rng, n):
+    cases = []
+    for _ in range(n):
+        v = gen_fnlri(rng)
+        if not fnlri_fits(v):
+            continue
+        cases.append({"op": "mknlri", "v": v})
+        b = py_enc_nlri(v["safi"], v)
+        cases.append({"op": "nlri", "afi": v["afi"], "safi": v["safi"], "bytes": b + (bytes(rng.getrandbits(8) for _ in range(rng.choice([0, 0, 3, 9])))), "v": v})
+        for _ in range(2):
+            cases.append({"op": "nlri", "afi": v["afi"], "safi": v["safi"], "bytes": mutate(rng, b)})
+    return cases
+
+
+def fnlri_oracle(c, out):
+    if out.startswith("panic") or out.startswith("modified-input"):
+        return ("nlri-" + out.split()[0], out[:300])
+    if c["op"] == "mknlri":
+        v = c["v"]
+        if not out.startswith("ok "):
+            return ("nlri-constructed-value-not-serialised", "%s -> %s" % (line_of(c), out[:200]))
+        head, _, back = out.partition(" || ")
+        f = head.split()
+        hx, ln, s1 = f[1], int(f[2]), f[3] if len(f) > 3 else ""
+        if ln * 2 != len(hx):
+            return ("nlri-len-differs-from-octets-emitted", "Len()=%d, %d octets emitted: %s" % (ln, len(hx) // 2, line_of(c)))
+        if fnlri_ambiguous(v):
+            return None          # judged by the byte-level cases below (known finding)
+        want = py_enc_nlri(v["safi"], dict(v, addr=bytes(masked(v["addr"], v["bits"])), rd=canon_rd(v["rd"])))
+        if bytes.fromhex(hx) != want:
+            return ("nlri-encoding-differs-from-the-rfc-reading", "%s emitted %s, expected %s" % (line_of(c), hx, want.hex()))
+        if back == "err":
+            return ("nlri-own-output-rejected", "%s: %s does not parse back" % (line_of(c), hx))
+        s2 = back.split("|")[0]
+        if s1 != s2:
+            return ("nlri-parses-back-to-a-different-value" + ("-host-bits" if v["hostbits"] else ""), "%s: constructed %s, parsed back %s" % (line_of(c), s1, s2))
+        return None
+    v = c.get("v")
+    if v is None:
+        if out.startswith("ok "):
+            f = out.split()
+            if int(f[1]) > len(c["bytes"]):
+                return ("nlri-reads-beyond-the-buffer", "Len()=%s of a value decoded from %d octets: %s" % (f[1], len(c["bytes"]), line_of(c)))
+        return None
+    # a valid encoding (possibly followed by other octets): must decode to the value, consuming exactly its octets
+    b = py_enc_nlri(v["safi"], v)
+    amb = fnlri_ambiguous(v)
+    if not out.startswith("ok "):
+        return (AMBIGUOUS_LABEL if amb else "nlri-valid-encoding-rejected", "%s -> %s" % (line_of(c), out[:100]))
+    f = out.split()
+    k = fam_kind(v["safi"])
+    n = (v["bits"] + 7) // 8
+    want = [str(len(b)), ",".join(str(l) for l in v["labels"]) if k != "plain" else "-",
+canon_rd(v["rd"]).hex() if k == "vpn" else "-",
+            str(v["bits"]), bytes(masked(v["addr"], v["bits"]))[:n].hex() or "-"]
+    if f[1:6] != want:
+        cls = AMBIGUOUS_LABEL if amb else "nlri-decodes-to-a-different-value"
+        return (cls, "%s: decoded (len labels rd bits octets) %s, encoded value %s" % (line_of(c), f[1:6], want))
+    return None
+
+
 def line_of(c):
     if c["op"] == "rich":
         return "rich"
+    if c["op"] == "nlri":
+        return "nlri %d %d %s" % (c["afi"], c["safi"], c["bytes"].hex())
+    if c["op"] == "mknlri":
+        v = c["v"]
+        return "mknlri %d %d %s %s %d %s" % (v["afi"], v["safi"], ",".join(str(l) for l in v["labels"]) or "-", canon_rd(v["rd"]).hex() or "-", v["bits"], v["addr"].hex())
     if c["op"] == "enc":
         return "enc %d %d %s" % (1 if c["ext"] else 0, 1 if c["ap"] else 0, wirelib.sx(c["msg"]))
     return "dec %d %s" % (1 if c["ap"] else 0, c["bytes"].hex())
 
 
 def norm(c, out):
-    if c["op"] == "dec" and out.startswith("err"):
+    if c["op"] in ("dec", "nlri", "mknlri") and out.startswith("err"):
         return "err"
+    if c["op"] == "mknlri":
+        return " ".join(out.split()[:3])
     return out
 
 
 def oracle(c, out):
+    if c["op"] in ("nlri", "mknlri"):
+        return fnlri_oracle(c, out)
     if c["op"] == "rich":
         # constructor-built attributes of every family/kind the harness knows: Len() == octets, own output parses, fixpoint
         if out.startswith("ok"):
@@ -134,9 +308,10 @@ def run(ctx):
                 if o.startswith("ok "):
                     cases.append({"op": "dec", "ap": c["ap"], "bytes": bytes.fromhex(o[3:]), "emitted": True})
     cases.append({"op": "rich"})
+    cases += fnlri_cases(rng, ctx.scale(1500, 60000))
     cov = core.differential(ctx, "c04", proof, cases, line_of, oracle, norm_impl=norm, norm_model=norm,
                             model_applies=lambda c: c["op"] != "rich",
-                            nontrivial=lambda c: c["op"] in ("dec", "rich") or (c["msg"][0] == "update" and len(c["msg"][2]) >= 2),
+                            nontrivial=lambda c: c["op"] in ("dec", "rich", "nlri", "mknlri") or (c["msg"][0] == "update" and len(c["msg"][2]) >= 2),
                             correspondence_name="BGPMessage.Serialize / ParseBGPMessage / attribute and NLRI codecs vs Wire.Model enc_msg / dec_msg")
     pc = core.proof_coverage(proof)
     pc.update(cov)
